@@ -241,12 +241,34 @@ impl Prop for UndoGc {
     }
 }
 
+/// Quotations and links read the same with and without garbage collection: the `links` scenario of
+/// C09 (`props/c09c.rs`) ships every update to a collecting and to a non-collecting receiver and
+/// compares what the quotation reads on the sender and on both, after the transfer and after every
+/// edit of the source (removals and overwrites of a linked map entry among them).
+pub struct LinkTwins;
+
+impl Prop for LinkTwins {
+    type Case = crate::props::c09c::LinkCase;
+    fn name(&self) -> &'static str {
+        "link-twins"
+    }
+    fn cases(&self, tier: Tier) -> u64 {
+        tier.pick(150_000, 3_000_000)
+    }
+    fn strategy(&self, tier: Tier) -> BoxedStrategy<Self::Case> {
+        crate::props::c09c::Links.strategy(tier)
+    }
+    fn check(&self, case: &Self::Case, st: &mut CaseStats) -> Result<(), Fail> {
+        crate::props::c09c::Links.check(case, st).map_err(|f| Fail::new(f.sig.replace("c09/links", "c15/links"), f.msg))
+    }
+}
+
 pub fn property() -> Property {
     Property {
         id: "C15",
         level: "exploration",
-        rule: "histories as in C01 rich in deletions (plain content, nested subtrees, map overwrites, formatting) with forced GC (gc(None) or gc(Some(delete set))) injected on authors at generated points; the complete update set is then delivered under a generated schedule to a GC-enabled and a GC-disabled twin (both with or both without automatic format clean-up, the library's default being with) which are compared after every delivery (forced GC injected on the GC twin); authors with mixed GC settings are flushed and compared; every collected replica's full state (v1 and v2) is rebuilt into a fresh document; undo-gc: programs of tracked edits / undo / redo / reset with forced GC as a frequent step on one document, dump-sequence model of C12 (undo yields the previous distinct dump although GC ran in between).  Non-trivial = the GC twin really collected blocks / an undo follows a forced GC that follows an edit; distinct = distinct generated case".into(),
+        rule: "histories as in C01 rich in deletions (plain content, nested subtrees, map overwrites, formatting) with forced GC (gc(None) or gc(Some(delete set))) injected on authors at generated points; the complete update set is then delivered under a generated schedule to a GC-enabled and a GC-disabled twin (both with or both without automatic format clean-up, the library's default being with) which are compared after every delivery (forced GC injected on the GC twin); authors with mixed GC settings are flushed and compared; every collected replica's full state (v1 and v2) is rebuilt into a fresh document; undo-gc: programs of tracked edits / undo / redo / reset with forced GC as a frequent step on one document, dump-sequence model of C12 (undo yields the previous distinct dump although GC ran in between).  link-twins: the links scenario of C09 (quotations and map-entry links of every shape, edits at the edges of the source, removals and overwrites of a linked entry) shipped to a collecting and to a non-collecting receiver: what the quotation reads must be the same on the sender and on both.  Non-trivial = the GC twin really collected blocks / an undo follows a forced GC that follows an edit; distinct = distinct generated case".into(),
         assumptions: vec!["equality is the canonical dump".into(), "the undo-gc part reuses the isolated undo model of C12 (same case type and oracle, other step weights)".into()],
-        parts: vec![Box::new(Part(Twins)), Box::new(Part(UndoGc))],
+        parts: vec![Box::new(Part(Twins)), Box::new(Part(UndoGc)), Box::new(Part(LinkTwins))],
     }
 }
